@@ -55,6 +55,8 @@ func (n *node) json(sb *strings.Builder) {
 	}
 }
 
+var keyA, keyB = "a", "b"
+
 func gen(depth int, leaves []string) []*node {
 	var out []*node
 	for _, l := range leaves {
@@ -64,14 +66,14 @@ func gen(depth int, leaves []string) []*node {
 		return out
 	}
 	sub := gen(depth-1, leaves)
-	for _, k := range []string{"a", "b"} {
+	for _, k := range []string{keyA, keyB} {
 		for _, v := range sub {
 			out = append(out, &node{kind: 'o', keys: []string{k}, elems: []*node{v}})
 		}
 	}
 	for _, v := range sub {
 		for _, w := range sub {
-			out = append(out, &node{kind: 'o', keys: []string{"a", "b"}, elems: []*node{v, w}})
+			out = append(out, &node{kind: 'o', keys: []string{keyA, keyB}, elems: []*node{v, w}})
 		}
 	}
 	for _, v := range sub {
@@ -225,29 +227,41 @@ func TestCheck(t *testing.T) {
 				return "ERROR ObfuscateJSON failed: " + err.Error()
 			}
 			got = o
-		case "jsonpath-request", "jsonpath-response":
-			pre := "$.request.body"
-			if via == "jsonpath-response" {
-				pre = "$.response.body"
-			}
-			full := make([]string, len(excl))
+		case "har-request", "har-response", "har-mixed":
+			// The HAR collector receives ONE processor-wide exclusion list for all transactions;
+			// run two transactions over the same slice and check both bodies of both.
+			var full, reqExcl, respExcl []string
 			for i, e := range excl {
-				full[i] = pre + e
+				switch {
+				case via == "har-request":
+					full, reqExcl = append(full, "$.request.body"+e), append(reqExcl, e)
+				case via == "har-response":
+					full, respExcl = append(full, "$.response.body"+e), append(respExcl, e)
+				case i%2 == 0: // mixed: response exclusion listed first
+					full, respExcl = append(full, "$.response.body"+e), append(respExcl, e)
+				default:
+					full, reqExcl = append(full, "$.request.body"+e), append(reqExcl, e)
+				}
 			}
-			rq, rs := harcollector.VerifObfuscateBodies(full, apiStream, docJSON, docJSON)
-			got = rq
-			other := rs
-			if via == "jsonpath-response" {
-				got, other = rs, rq
+			if via == "har-mixed" && len(excl) == 1 {
+				full, reqExcl = append(full, "$.request.body"+excl[0]), append(reqExcl, excl[0])
 			}
-			// the other direction's body has no exclusion at all: everything must be hidden
-			var ov any
-			if err := json.Unmarshal([]byte(other), &ov); err != nil {
-				return "ERROR output is not JSON: " + other
+			for txn := 1; txn <= 2; txn++ {
+				rq, rs := harcollector.VerifObfuscateBodies(full, apiStream, docJSON, docJSON)
+				for _, side := range []struct {
+					name, out string
+					ex        []string
+				}{{"request", rq, reqExcl}, {"response", rs, respExcl}} {
+					var ov any
+					if err := json.Unmarshal([]byte(side.out), &ov); err != nil {
+						return "ERROR output is not JSON: " + side.out
+					}
+					if d := compare(doc, ov, "", side.ex); d != "" {
+						return fmt.Sprintf("%s [%s body, transaction %d, exclusion list %v]", d, side.name, txn, full)
+					}
+				}
 			}
-			if d := compare(doc, ov, "", nil); d != "" {
-				return "CROSS-DIRECTION " + d
-			}
+			return ""
 		}
 		var v any
 		if err := json.Unmarshal([]byte(got), &v); err != nil {
@@ -271,42 +285,58 @@ func TestCheck(t *testing.T) {
 	}
 
 	leaves := mc.Pick(r, []string{`"s"`, `7`}, []string{`"s"`, `7`, `true`, `null`})
-	base := gen(2, leaves)
-	docs := append([]*node{}, base...)
-	// depth 3: wrap every depth-2 document once in an object and once in an array
-	wrapN := mc.Pick(r, 1, 1)
-	_ = wrapN
-	for _, d := range gen(2, []string{`"s"`, `7`}) {
-		docs = append(docs, &node{kind: 'o', keys: []string{"a"}, elems: []*node{d}})
-		docs = append(docs, &node{kind: 'o', keys: []string{"b", "a"}, elems: []*node{d, {kind: 'l', leaf: `true`}}})
-		docs = append(docs, &node{kind: 'a', elems: []*node{d}})
-	}
-	// exclusion universe: every path over segments {.a,.b,[]} up to length 3 (the
-	// document's own paths and the paths of its "siblings" are all among them)
-	segs := []string{".a", ".b", "[]"}
-	var universe []string
-	mc.Sequences(3, 3, func(idx []int) bool {
-		if len(idx) == 0 {
-			return true
-		}
-		p := ""
-		for _, i := range idx {
-			p += segs[i]
-		}
-		universe = append(universe, p)
-		return true
-	})
-	// near-miss exclusions outside the document vocabulary (suffix / prefix collisions)
-	universe = append(universe, ".xa", ".ab", ".a.ba", "a", ".a.", ".b.a.a.a")
-	sort.Slice(universe, func(i, j int) bool {
-		if len(universe[i]) != len(universe[j]) {
-			return len(universe[i]) < len(universe[j])
-		}
-		return universe[i] < universe[j]
-	})
 	maxSet := 2
-	vias := []string{"plain", "jsonpath-request", "jsonpath-response"}
-	r.Rule = fmt.Sprintf("all JSON documents over keys {a,b}, leaves %v, arrays of length 1-2, nesting depth <=2 plus depth-3 wrappers (%d documents) x exclusion sets of size 0..%d from the %d-path universe (pairs restricted to sets containing at least one path of the document in the quick tier) x entry points %v; non-trivial = at least one leaf of the document is covered by an exclusion and at least one is not; distinct = (document, exclusion set, entry point)", leaves, len(docs), maxSet, len(universe), vias)
+	vias := []string{"plain", "har-request", "har-response", "har-mixed"}
+	type family struct {
+		docs     []*node
+		universe []string
+	}
+	// two key alphabets: {a,b} (same name at different depths) and {a,A} (names differing
+	// only in letter case: JSON keys are case sensitive)
+	var fams []family
+	for _, ks := range [][2]string{{"a", "b"}, {"a", "A"}} {
+		keyA, keyB = ks[0], ks[1]
+		var docs []*node
+		if ks[1] == "b" {
+			docs = append(docs, gen(2, leaves)...)
+		} else {
+			docs = append(docs, gen(2, []string{`"s"`, `7`})...)
+		}
+		// depth 3: wrap every depth-2 document in an object, a two-key object and an array
+		for _, d := range gen(2, []string{`"s"`, `7`}) {
+			if ks[1] != "b" && d.kind == 'l' {
+				continue
+			}
+			docs = append(docs, &node{kind: 'o', keys: []string{keyA}, elems: []*node{d}})
+			docs = append(docs, &node{kind: 'o', keys: []string{keyB, keyA}, elems: []*node{d, {kind: 'l', leaf: `true`}}})
+			docs = append(docs, &node{kind: 'a', elems: []*node{d}})
+		}
+		// exclusion universe: every path over segments {.keyA,.keyB,[]} up to length 3 (the
+		// document's own paths and the paths of its "siblings" are all among them)
+		segs := []string{"." + keyA, "." + keyB, "[]"}
+		var universe []string
+		mc.Sequences(3, 3, func(idx []int) bool {
+			if len(idx) == 0 {
+				return true
+			}
+			p := ""
+			for _, i := range idx {
+				p += segs[i]
+			}
+			universe = append(universe, p)
+			return true
+		})
+		// near-miss exclusions outside the document vocabulary (suffix / prefix collisions)
+		universe = append(universe, ".xa", ".ab", ".a.ba", "a", ".a.", ".b.a.a.a")
+		sort.Slice(universe, func(i, j int) bool {
+			if len(universe[i]) != len(universe[j]) {
+				return len(universe[i]) < len(universe[j])
+			}
+			return universe[i] < universe[j]
+		})
+		fams = append(fams, family{docs, universe})
+	}
+	r.Rule = fmt.Sprintf("all JSON documents over keys {a,b} and {a,A}, leaves %v, arrays of length 1-2, nesting depth <=2 plus depth-3 wrappers (%d+%d documents) x exclusion sets of size 0..%d from a %d-path universe (pairs restricted to sets containing at least one path of the document in the quick tier) x entry points %v (HAR collector: processor-wide exclusion list shared by two consecutive transactions, request and response bodies both checked); non-trivial = at least one leaf of the document is covered by an exclusion and at least one is not; distinct = (document, exclusion set, entry point)", leaves, len(fams[0].docs), len(fams[1].docs), maxSet, len(fams[0].universe), vias)
 	r.Assume("encoding/json is used to parse the obfuscator's output", "null leaves off excluded paths are not asserted (the statement lists strings, numbers, booleans)",
 		"exclusion array notation is the cursor notation '[]' in both notations (what the code and its tests use)")
 
@@ -314,63 +344,68 @@ func TestCheck(t *testing.T) {
 		r.Finish(t)
 		return
 	}
-	for di, doc := range docs {
-		if !r.Mine(di) {
-			continue
-		}
-		var sb strings.Builder
-		doc.json(&sb)
-		docJSON := sb.String()
-		var own []string
-		doc.paths("", &own)
-		ownSet := map[string]bool{}
-		for _, p := range own {
-			ownSet[p] = true
-		}
-		var leafPaths []string
-		collectLeafPaths(doc, "", &leafPaths)
-		mc.Subsets(len(universe), 0, maxSet, func(s []int) bool {
-			excl := make([]string, len(s))
-			touches := false
-			for i, k := range s {
-				excl[i] = universe[k]
-				if ownSet[universe[k]] {
-					touches = true
-				}
+	di := -1
+	for _, fam := range fams {
+		universe := fam.universe
+		for _, doc := range fam.docs {
+			di++
+			if !r.Mine(di) {
+				continue
 			}
-			if len(s) == 2 && !touches && !r.Thorough() {
-				return true
+			var sb strings.Builder
+			doc.json(&sb)
+			docJSON := sb.String()
+			var own []string
+			doc.paths("", &own)
+			ownSet := map[string]bool{}
+			for _, p := range own {
+				ownSet[p] = true
 			}
-			cov, unc := 0, 0
-			for _, lp := range leafPaths {
-				if onOrUnder(lp, excl) {
-					cov++
-				} else {
-					unc++
-				}
-			}
-			for _, via := range vias {
-				if via != "plain" && len(s) == 2 && !r.Thorough() && di%4 != 0 {
-					continue
-				}
-				r.Add("evaluations", 1)
-				v := runOne(doc, docJSON, excl, via)
-				if cov > 0 && unc > 0 {
-					r.NonTrivial(docJSON + "|" + strings.Join(excl, ",") + "|" + via)
-					if len(s) == 2 && di%97 == 5 && via == "plain" {
-						r.Sample(map[string]any{"doc": docJSON, "exclusions": excl, "via": via, "verdict": "ok:" + fmt.Sprint(v == "")})
+			var leafPaths []string
+			collectLeafPaths(doc, "", &leafPaths)
+			mc.Subsets(len(universe), 0, maxSet, func(s []int) bool {
+				excl := make([]string, len(s))
+				touches := false
+				for i, k := range s {
+					excl[i] = universe[k]
+					if ownSet[universe[k]] {
+						touches = true
 					}
 				}
-				if v == "" {
-					r.Outcome(fmt.Sprintf("ok cov>0=%v unc>0=%v", cov > 0, unc > 0))
-					continue
+				if len(s) == 2 && !touches && !r.Thorough() {
+					return true
 				}
-				r.Outcome("violation " + strings.SplitN(v, " ", 2)[0])
-				r.Violation(classify(v, via, excl), fmt.Sprintf("doc=%s exclusions=%v via=%s: %s", docJSON, excl, via, v),
-					replay{docJSON, excl, via})
-			}
-			return true
-		})
+				cov, unc := 0, 0
+				for _, lp := range leafPaths {
+					if onOrUnder(lp, excl) {
+						cov++
+					} else {
+						unc++
+					}
+				}
+				for _, via := range vias {
+					if via != "plain" && len(s) == 2 && !r.Thorough() && di%4 != 0 {
+						continue
+					}
+					r.Add("evaluations", 1)
+					v := runOne(doc, docJSON, excl, via)
+					if cov > 0 && unc > 0 {
+						r.NonTrivial(docJSON + "|" + strings.Join(excl, ",") + "|" + via)
+						if len(s) == 2 && di%97 == 5 && via == "plain" {
+							r.Sample(map[string]any{"doc": docJSON, "exclusions": excl, "via": via, "verdict": "ok:" + fmt.Sprint(v == "")})
+						}
+					}
+					if v == "" {
+						r.Outcome(fmt.Sprintf("ok cov>0=%v unc>0=%v", cov > 0, unc > 0))
+						continue
+					}
+					r.Outcome("violation " + strings.SplitN(v, " ", 2)[0])
+					r.Violation(classify(v, via, excl), fmt.Sprintf("doc=%s exclusions=%v via=%s: %s", docJSON, excl, via, v),
+						replay{docJSON, excl, via})
+				}
+				return true
+			})
+		}
 	}
 	r.Finish(t)
 }
